@@ -7,40 +7,89 @@ Notation value := (Inject.value is_iface implements).
 Notation resolve := (Inject.resolve is_iface implements).
 Notation implementors := (Inject.implementors implements).
 
+Notation impl_entries := (Inject.impl_entries implements).
+
 (* a later registration for the same type in the same scope replaces the earlier *)
-Lemma lookup_register_same s k v : lookup (register s k v) k = Some v.
+Lemma lookup_register_val_same s k v : lookup (register_val s k v) k = Some v.
 Proof.
-  unfold register. induction s as [|[k' v'] s IH]; cbn.
+  unfold register_val. induction s as [|[k' v'] s IH]; cbn.
   - rewrite Nat.eqb_refl. reflexivity.
   - rewrite IH. reflexivity.
 Qed.
 
-Lemma lookup_register_other s k v t : t <> k -> lookup (register s k v) t = lookup s t.
+Lemma lookup_register_same s k v : lookup (register s k v) k = Some (Some v).
+Proof. apply lookup_register_val_same. Qed.
+
+Lemma lookup_register_other s k v t : t <> k -> lookup (register_val s k v) t = lookup s t.
 Proof.
-  unfold register. intros Ne. induction s as [|[k' v'] s IH]; cbn.
+  unfold register_val. intros Ne. induction s as [|[k' v'] s IH]; cbn.
   - destruct (Nat.eqb_spec k t); [congruence | reflexivity].
   - rewrite IH. reflexivity.
 Qed.
 
-Theorem replace_last s k v1 v2 : lookup (register (register s k v1) k v2) k = Some v2.
+Theorem replace_last s k v1 v2 : lookup (register (register s k v1) k v2) k = Some (Some v2).
 Proof. apply lookup_register_same. Qed.
 
+(* the valid exact registration of a scope, if any (an invalid reflect.Value does not count) *)
+Definition exact (s : scope) (t : nat) : option nat :=
+  match lookup s t with Some (Some v) => Some v | _ => None end.
+
 (* an exact registration in the nearest scope that has one wins, before any outer scope *)
-Theorem value_exact_nearest s parents t v : lookup s t = Some v -> value (s :: parents) t = [v].
-Proof. intros H. cbn. rewrite H. reflexivity. Qed.
+Theorem value_exact_nearest s parents t v : exact s t = Some v -> value (s :: parents) t = [v].
+Proof. unfold exact. intros H. cbn. destruct (lookup s t) as [[w|]|]; try discriminate. inversion H. reflexivity. Qed.
+
+Lemma value_no_exact s parents t : exact s t = None ->
+  value (s :: parents) t =
+  if is_iface t then
+    match impl_entries s t with
+    | [] => value parents t
+    | es => flat_map (fun e => match snd e with Some v => [v] | None => value parents t end) es
+    end
+  else value parents t.
+Proof. unfold exact. intros H. cbn. destruct (lookup s t) as [[w|]|]; try discriminate; reflexivity. Qed.
 
 (* within a scope, exact registration before implementors; implementors before the parent *)
 Theorem value_implementors s parents t :
-  lookup s t = None -> is_iface t = true -> implementors s t <> [] ->
+  exact s t = None -> is_iface t = true -> impl_entries s t <> [] ->
+  (forall e, In e (impl_entries s t) -> snd e <> None) ->
   value (s :: parents) t = implementors s t.
-Proof. intros H1 H2 H3. cbn. rewrite H1, H2. destruct (implementors s t); [congruence | reflexivity]. Qed.
+Proof.
+  intros H1 H2 H3 H4. rewrite (value_no_exact s parents t H1), H2. unfold Inject.implementors.
+  destruct (impl_entries s t) as [|e es] eqn:E; [congruence|]. rewrite <- E in *. clear E H3.
+  induction (impl_entries s t) as [|x l IH]; [reflexivity|]. cbn [flat_map].
+  rewrite IH by (intros e' He'; apply H4; right; exact He').
+  destruct (snd x) eqn:Sx; [reflexivity|]. exfalso. exact (H4 x (or_introl eq_refl) Sx).
+Qed.
 
 Theorem value_falls_to_parent s parents t :
-  lookup s t = None -> (is_iface t = false \/ implementors s t = []) ->
+  exact s t = None -> (is_iface t = false \/ impl_entries s t = []) ->
   value (s :: parents) t = value parents t.
 Proof.
-  intros H1 H2. cbn. rewrite H1. destruct (is_iface t); [|reflexivity].
+  intros H1 H2. rewrite (value_no_exact s parents t H1). destruct (is_iface t); [|reflexivity].
   destruct H2 as [H2|H2]; [discriminate|]. rewrite H2. reflexivity.
+Qed.
+
+(* an entry holding an invalid reflect.Value (MapTo(nil, ...), Set(t, reflect.Value{})) hides nothing: for a
+   concrete type it is as if absent ... *)
+Theorem invalid_is_absent s parents t :
+  lookup s t = Some None -> is_iface t = false -> value (s :: parents) t = value parents t.
+Proof. intros H1 H2. apply value_falls_to_parent; [unfold exact; rewrite H1; reflexivity | left; exact H2]. Qed.
+
+(* ... and in general the admissible answers are the valid values under implementing keys of this scope, plus -
+   when Go's iteration may stop at an implementing key holding an invalid value - those of the outer scopes *)
+Theorem value_admissible s parents t v :
+  exact s t = None -> is_iface t = true -> impl_entries s t <> [] ->
+  (In v (value (s :: parents) t) <->
+   (exists e, In e (impl_entries s t) /\ snd e = Some v) \/
+   ((exists e, In e (impl_entries s t) /\ snd e = None) /\ In v (value parents t))).
+Proof.
+  intros H1 H2 H3. rewrite (value_no_exact s parents t H1), H2.
+  destruct (impl_entries s t) as [|e0 es] eqn:E; [congruence|]. rewrite <- E. clear E H3.
+  rewrite in_flat_map. split.
+  - intros (e & He & Hv). destruct (snd e) as [w|] eqn:Se.
+    + destruct Hv as [<-|[]]. left. exists e. auto.
+    + right. split; [exists e; auto | exact Hv].
+  - intros [(e & He & Se)|((e & He & Se) & Hv)]; exists e; (split; [exact He|]); rewrite Se; [left; reflexivity | exact Hv].
 Qed.
 
 (* request-local: one application scope, one scope per request (parent = application).  Registering
@@ -70,7 +119,7 @@ Qed.
 
 (* ... while the request itself sees its registration at once, before the application's *)
 Theorem request_sees_own s app k v : value [register s k v; app] k = [v].
-Proof. apply value_exact_nearest. apply lookup_register_same. Qed.
+Proof. apply value_exact_nearest. unfold exact. rewrite lookup_register_same. reflexivity. Qed.
 
 (* Invoke: an error names the FIRST unresolvable parameter type, and then nothing is called *)
 Fixpoint first_unresolved (scopes : list scope) (params : list nat) : option nat :=
